@@ -266,6 +266,8 @@ def freeMachine : Machine :=
       if kind ≠ "op" then none else
       match args with
       | ["add", _, _] | ["restart"] | ["sleep"] | ["drain"] => some ((), { obs := impl, branch := "free." ++ args.headD "" })
+      | ["backlog", n, _] =>
+        some ((), { obs := impl, branch := if (n.toNat?.getD 0) > 1000 then "restart-with-backlog-over-1000" else "free.backlog" })
       | _ => none }
 
 end C30
